@@ -347,6 +347,10 @@ class cstruct:
         return types.new_class(name, bases, {}, lambda ns: ns.update(attrs))
 
     def _make_array(self, type_: T, num_entries: int | Expression | None) -> type[Array[T]]:
+        if isinstance(num_entries, int) and num_entries < 0:
+            # A size expression that evaluates to a negative number gives an empty array, also if it is a constant
+            num_entries = 0
+
         null_terminated = False
         if num_entries is None:
             null_terminated = True
